@@ -18,6 +18,7 @@ type Client struct {
 	replPort   int            // the known replication port for follower connections
 	replAddr   string         // the known replication addr for follower connections
 	authd      bool           // client has been authenticated
+	aofgen     int64          // 1 + rewrite count at the last SERVER request, 0 if none
 	outputType Type           // Null, JSON, or RESP
 	strictRESP bool           // client is in strict RESP mode
 	remoteAddr string         // original remote address
